@@ -6,6 +6,10 @@ package main
 
 import (
 	"encoding/json"
+	"go/ast"
+	"go/types"
+
+	"golang.org/x/tools/go/ssa"
 	"fmt"
 	"os"
 	"path/filepath"
@@ -790,6 +794,120 @@ func cmdParams() int {
 				ps = append(ps, nm)
 			}
 			fmt.Printf("%s\t%s\n", n, strings.Join(ps, " "))
+		}
+	}
+	return 0
+}
+
+// cmdLocals prints, for every verified function under contract, the locals its
+// clauses mention together with the structural descriptors of the SSA values
+// those names stand for in the current tree: input of tools/add_locals.py.
+func cmdLocals() int {
+	s, err := newSession("", 10)
+	if err != nil {
+		return 2
+	}
+	defer s.close()
+	word := func(src, name string) bool {
+		for i := 0; i+len(name) <= len(src); i++ {
+			if src[i:i+len(name)] != name {
+				continue
+			}
+			isId := func(c byte) bool {
+				return c == '_' || c >= '0' && c <= '9' || c >= 'a' && c <= 'z' || c >= 'A' && c <= 'Z'
+			}
+			if (i == 0 || !isId(src[i-1]) && src[i-1] != '.') && (i+len(name) == len(src) || !isId(src[i+len(name)])) {
+				return true
+			}
+		}
+		return false
+	}
+	for _, mod := range []string{"", "fsim", "sqlite"} {
+		p, err := s.prog(mod)
+		if err != nil {
+			fmt.Fprintln(os.Stderr, err)
+			return 2
+		}
+		for _, n := range p.CS.Order {
+			c := p.CS.ByName[n]
+			fn := p.Funcs[n]
+			if c.Extern || moduleOf(n) != mod || fn == nil || len(fn.Blocks) == 0 {
+				continue
+			}
+			var srcs []string
+			for _, cl := range c.Requires {
+				srcs = append(srcs, cl.Src)
+			}
+			for _, cl := range c.Ensures {
+				srcs = append(srcs, cl.Src)
+			}
+			for _, cls := range c.Invariants {
+				for _, cl := range cls {
+					srcs = append(srcs, cl.Src)
+				}
+			}
+			for _, cls := range c.CallAsserts {
+				for _, cl := range cls {
+					srcs = append(srcs, cl.Src)
+				}
+			}
+			for _, cl := range c.GhostSets {
+				srcs = append(srcs, cl.Src)
+			}
+			srcs = append(srcs, c.Modifies...)
+			if len(srcs) == 0 {
+				continue
+			}
+			isParam := map[string]bool{}
+			for _, prm := range fn.Params {
+				isParam[prm.Name()] = true
+			}
+			descs := p.valueDescs(fn)
+			byName := map[string]map[string]bool{}
+			add := func(name string, v ssa.Value, addr bool) {
+				if name == "" || name == "_" || isParam[name] {
+					return
+				}
+				d, ok := descs[v]
+				if !ok {
+					return
+				}
+				if addr {
+					d = "addr:" + d
+				}
+				if byName[name] == nil {
+					byName[name] = map[string]bool{}
+				}
+				byName[name][d] = true
+			}
+			for _, b := range fn.Blocks {
+				for _, in := range b.Instrs {
+					switch x := in.(type) {
+					case *ssa.DebugRef:
+						if id, ok := x.Expr.(*ast.Ident); ok {
+							if _, isPtr := under(x.X.Type()).(*types.Pointer); x.IsAddr && !isPtr {
+								continue
+							}
+							add(id.Name, x.X, x.IsAddr)
+						}
+					case *ssa.Alloc:
+						if x.Comment != "" && !strings.Contains(x.Comment, " ") && !strings.Contains(x.Comment, ".") {
+							add(x.Comment, x, true)
+						}
+					}
+				}
+			}
+			for _, name := range sortedKeys(byName) {
+				used := false
+				for _, src := range srcs {
+					if word(src, name) {
+						used = true
+					}
+				}
+				if used {
+					fmt.Printf("%s\t%s\t%s\n", n, name, strings.Join(sortedKeys(byName[name]), " | "))
+				}
+			}
 		}
 	}
 	return 0
